@@ -4,6 +4,8 @@ C01 — Broker delivers each message to exactly the matching subscriptions, in o
 import Proofs.Lemmas.Router.Frame
 import Proofs.Lemmas.Router.Rp3_ReqRun
 import Proofs.Lemmas.Router.Rp5_Reach
+import Proofs.Lemmas.Router.Rp7_Run
+import Proofs.Lemmas.Router.Rp8_Idle
 import Proofs.Props.C12
 namespace C01
 open Router Router.Rp3 CommitLog
@@ -500,6 +502,277 @@ theorem req_at_of_reachable {cfg : Config} (h1 : 1 ≤ cfg.maxSegmentSize) (h2 :
   obtain ⟨fd, hist, hfd, hrep, hiss, hU, _⟩ := tracked_request_sound h1 h2 hr hno hc hreq
   exact ⟨fd, hist, hfd, hrep, hiss, hret fd hfd, hU⟩
 
+/-! ### completeness at idle (`ParkedAtEnd`) and delivery over whole runs -/
+
+/-- what the vocabulary of the theorems below says: connection `j` OWNS request `r` when `r` is in
+    `j`'s tracker, parked for `j` in a filter log's waiter list, or in `notifications` for `j`; a
+    cursor is `AtEnd` of a log when its segment is retained and its offset is the log's next offset -/
+theorem own_atEnd_spec (s : RState) (j : Nat) (r : DataRequest) (fd : FilterData) (cur : Router.Cursor) :
+    (Own s j r ↔ (∃ c, getConn s j = some c ∧ r ∈ c.tracker.requests) ∨
+      (∃ (i : Nat) (fd' : FilterData), s.datalog.native[i]? = some fd' ∧ (j, r) ∈ fd'.waiters) ∨ (j, r) ∈ s.notifications) ∧
+    (AtEnd fd cur ↔ (logC fd.log).head ≤ cur.1 ∧ cur.2 = (logC fd.log).nextAbs) := ⟨Iff.rfl, Iff.rfl⟩
+
+/-- C01 `ParkedAtEnd` and its companions (invariant). In every reachable state below the no-overflow
+    bound, for `max_outgoing_packet_count > 0` (with 0 a QoS-0 sweep reads nothing and parks the
+    request wherever it stands — a degenerate configuration):
+    * every subscription of every live connection has a data request that the connection owns;
+    * a request's group is the group of its filter (`$share/<g>/<p>` ↦ `<g>/<p>`, none otherwise);
+    * every PARKED request of a non-shared subscription stands AT THE END of its filter's log: `park`
+      is only called after a sweep that reported `FilterCaughtup`, whose continuation cursor is the
+      `Done` position of the read; every append to a log moves all its waiters to `notifications`;
+      eviction happens only inside an append. -/
+theorem parked_at_end {cfg : Config} (h1 : 1 ≤ cfg.maxSegmentSize) (h2 : 1 ≤ cfg.maxSegmentCount)
+    (hpos : 0 < cfg.maxOutgoingPacketCount) {s : RState} (hr : Reachable cfg s) (hno : NoOverflow s) :
+    (∀ id c, getConn s id = some c → ∀ f ∈ c.subscriptions, ∃ r, Own s id r ∧ r.filter = f) ∧
+    (∀ id r, Own s id r → r.group = (extractGroup r.filter).map (·.1)) ∧
+    (∀ (i : Nat) fd, s.datalog.native[i]? = some fd → ∀ w ∈ fd.waiters, w.2.group = none → AtEnd fd w.2.cursor) := by
+  have hq := QI.reachable h1 h2 hpos hr hno
+  refine ⟨fun id c hc f hf => hq.cover id f (by unfold subsOf; rw [hc]; exact hf), fun id r ho => hq.gt id r ho, hq.pe⟩
+
+/-- C01 `quiescent_complete` (last sentence of the property; C09 "resumes … without further
+    stimulus"). Let `s` be a reachable state (between two router steps, so `notifications` is empty)
+    and `id` a live connection whose tracker holds no data request — the broker has gone idle for
+    that client: nothing is scheduled for it. Then every subscription `f` of the connection has its
+    request PARKED in the waiter list of the log of `f`'s path (so the next matching publish wakes
+    it: `caught_up_subscriber_is_woken`), with an issued cursor; and for a non-shared subscription
+    the cursor stands at the END of that log: a read from it returns nothing — the broker holds no
+    entry of the log which it has not already handed to the connection's link buffer or window. -/
+theorem quiescent_complete {cfg : Config} (h1 : 1 ≤ cfg.maxSegmentSize) (h2 : 1 ≤ cfg.maxSegmentCount)
+    (hpos : 0 < cfg.maxOutgoingPacketCount) {s : RState} (hr : Reachable cfg s) (hno : NoOverflow s)
+    {id : Nat} {c : Conn} (hc : getConn s id = some c) (hidle : c.tracker.requests = [])
+    {f : String} (hf : f ∈ c.subscriptions) :
+    s.notifications = [] ∧
+    ∃ (i : Nat) (fd : FilterData) (hist : List Pub) (r : DataRequest),
+      s.datalog.filterIdx? (logPath f) = some i ∧ s.datalog.native[i]? = some fd ∧ Rep (logC fd.log) hist ∧
+      (id, r) ∈ fd.waiters ∧ r.filter = f ∧ r.filterIdx = i ∧ r.group = (extractGroup f).map (·.1) ∧
+      Issued (logC fd.log) r.cursor ∧
+      (extractGroup f = none →
+        (logC fd.log).head ≤ r.cursor.1 ∧ r.cursor.2 = hist.length ∧
+        ∀ n, n ≤ MAX_INFLIGHT + s.config.maxOutgoingPacketCount → (fd.log.readv r.cursor n).1 = []) :=
+  ⟨(Inv3.reachable hr).inv2.binv.2, idle_subscription_parked h1 h2 hpos hr hno hc hidle hf⟩
+
+/-- C01 / C09 (scheduler status, invariant). In every reachable state, for every live connection:
+    `Paused(Caughtup)` → its tracker holds no data request; `Paused(InflightFull)` → its outgoing
+    window is full (`MAX_INFLIGHT` unacknowledged publishes: it waits for its client's acks, and an ack
+    reschedules it); `Ready` → it is in the ready queue (a `consume` call will serve it). The fourth
+    status, `Paused(Busy)`, is left by the link's `Ready` event (after the link drained its buffer)
+    or at registration. -/
+theorem scheduler_status_facts {cfg : Config} {s : RState} (hr : Reachable cfg s) {id : Nat} {c : Conn}
+    (hc : getConn s id = some c) :
+    (c.tracker.status = .paused .caughtup → c.tracker.requests = []) ∧
+    (c.tracker.status = .paused .inflightFull → c.out.inflight.length = MAX_INFLIGHT) ∧
+    (c.tracker.status = .ready → id ∈ s.readyqueue) := by
+  have hs := SI.reachable hr
+  have hout := (Inv1.reachable hr).out id c hc
+  exact ⟨(hs.ci id c hc).1, fun e => Nat.le_antisymm hout.1 ((hs.ci id c hc).2 e), hs.rq id c hc⟩
+
+/-- C01 `quiescent_complete`, stated with the scheduler status: a connection that is
+    `Paused(Caughtup)` — idle, nothing scheduled for it — has every subscription's request parked, the
+    non-shared ones at the end of their logs -/
+theorem quiescent_complete_status {cfg : Config} (h1 : 1 ≤ cfg.maxSegmentSize) (h2 : 1 ≤ cfg.maxSegmentCount)
+    (hpos : 0 < cfg.maxOutgoingPacketCount) {s : RState} (hr : Reachable cfg s) (hno : NoOverflow s)
+    {id : Nat} {c : Conn} (hc : getConn s id = some c) (hidle : c.tracker.status = .paused .caughtup)
+    {f : String} (hf : f ∈ c.subscriptions) :
+    ∃ (i : Nat) (fd : FilterData) (hist : List Pub) (r : DataRequest),
+      s.datalog.filterIdx? (logPath f) = some i ∧ s.datalog.native[i]? = some fd ∧ Rep (logC fd.log) hist ∧
+      (id, r) ∈ fd.waiters ∧ r.filter = f ∧ r.filterIdx = i ∧ r.group = (extractGroup f).map (·.1) ∧
+      Issued (logC fd.log) r.cursor ∧
+      (extractGroup f = none →
+        (logC fd.log).head ≤ r.cursor.1 ∧ r.cursor.2 = hist.length ∧
+        ∀ n, n ≤ MAX_INFLIGHT + s.config.maxOutgoingPacketCount → (fd.log.readv r.cursor n).1 = []) :=
+  (quiescent_complete h1 h2 hpos hr hno hc ((scheduler_status_facts hr hc).1 hidle) hf).2
+
+/-- C01 / C09 "nothing is left undelivered at idle except what the client itself holds up" (the
+    converse of `quiescent_complete`). In a reachable state, for every subscription `f` of a live
+    connection: EITHER its request is parked on the log of `f`'s path (a non-shared one: at the end
+    of the log — everything the broker holds has been handed over), OR the request is in the
+    connection's tracker and the connection is `Ready` and queued for `consume` (the broker will
+    sweep it without further stimulus), or `Paused(InflightFull)` with a full window (it waits for
+    its own client's acknowledgements), or `Paused(Busy)` (it waits for its own link's `Ready`). -/
+theorem undelivered_only_if_client_holds_up {cfg : Config} (h1 : 1 ≤ cfg.maxSegmentSize) (h2 : 1 ≤ cfg.maxSegmentCount)
+    (hpos : 0 < cfg.maxOutgoingPacketCount) {s : RState} (hr : Reachable cfg s) (hno : NoOverflow s)
+    {id : Nat} {c : Conn} (hc : getConn s id = some c) {f : String} (hf : f ∈ c.subscriptions) :
+    (∃ (i : Nat) (fd : FilterData) (hist : List Pub) (r : DataRequest),
+      s.datalog.filterIdx? (logPath f) = some i ∧ s.datalog.native[i]? = some fd ∧ Rep (logC fd.log) hist ∧
+      (id, r) ∈ fd.waiters ∧ r.filter = f ∧ r.filterIdx = i ∧ r.group = (extractGroup f).map (·.1) ∧
+      Issued (logC fd.log) r.cursor ∧
+      (extractGroup f = none →
+        (logC fd.log).head ≤ r.cursor.1 ∧ r.cursor.2 = hist.length ∧
+        ∀ n, n ≤ MAX_INFLIGHT + s.config.maxOutgoingPacketCount → (fd.log.readv r.cursor n).1 = [])) ∨
+    ((∃ r ∈ c.tracker.requests, r.filter = f) ∧
+      ((c.tracker.status = .ready ∧ id ∈ s.readyqueue) ∨
+       (c.tracker.status = .paused .inflightFull ∧ c.out.inflight.length = MAX_INFLIGHT) ∨
+       c.tracker.status = .paused .busy)) := by
+  rcases subscription_state h1 h2 hpos hr hno hc hf with ⟨r, hm, e⟩ | h
+  · exact .inr ⟨⟨r, hm, e⟩, tracking_status hr hc (fun e' => by rw [e'] at hm; cases hm)⟩
+  · exact .inl h
+
+/-- how "the log offsets forwarded to connection `a` through its subscription `f` during a run" is
+    defined (`runFwd`): the functions mirror `run` / `step` / `consume` and its request loop, and
+    collect for every sweep (`forward_device_data`) of a request of connection `a` with filter `f` the
+    log offsets of the forwards the sweep appended to the connection's link buffer (`sweepDelta`: the
+    new part of `linkOffsets`, the offsets carried by the `Forward` notifications of the buffer) -/
+theorem runFwd_spec (a : Nat) (f : String) (s : RState) (op : Op) (ch : List Choice) (rest : List (Op × List Choice))
+    (id fuel : Nat) (req : DataRequest) (reqs skipped : List DataRequest) :
+    runFwd a f s [] = [] ∧
+    runFwd a f s ((op, ch) :: rest) =
+      (match step { s with oracle := ch } op with
+       | .error _ => []
+       | .ok (s', _) => stepFwd a f { s with oracle := ch } op ++ runFwd a f s' rest) ∧
+    stepFwd a f s .consume = consumeFwd a f s ∧ (∀ l p, stepFwd a f s (.push l p) = []) ∧
+    (∀ l, stepFwd a f s (.drain l) = []) ∧ (∀ j e, stepFwd a f s (.event j e) = []) ∧
+    (∀ spec, stepFwd a f s (.connect spec) = []) ∧
+    consumeFwd a f s =
+      (match s.readyqueue.dropWhile (fun id => (s.conns.get? id).isNone) with
+       | [] => []
+       | id :: rq =>
+         if id ≠ a then [] else
+         match getConn { s with readyqueue := rq } id with
+         | none => []
+         | some c =>
+           loopFwd f id MAX_SCHEDULE_ITERATIONS
+             (ackDeviceData { setConn { s with readyqueue := rq } id { c with tracker := { c.tracker with requests := [] } } with
+               readyqueue := (setConn { s with readyqueue := rq } id { c with tracker := { c.tracker with requests := [] } }).readyqueue ++ [id] } id)
+             c.tracker.requests []) ∧
+    loopFwd f id 0 s reqs skipped = [] ∧ loopFwd f id (fuel + 1) s [] skipped = [] ∧
+    loopFwd f id (fuel + 1) s (req :: reqs) skipped =
+      (match forwardDeviceData s id req with
+       | .error _ => []
+       | .ok (s1, req1, st) =>
+         let d := if req.filter = f then sweepDelta s s1 id else []
+         let s2 := noteTurn s s1 req1
+         match st with
+         | .bufferFull => d
+         | .inflightFull => d
+         | .filterCaughtup =>
+           match park s2 id req1 with
+           | .error _ => d
+           | .ok s3 => d ++ loopFwd f id fuel s3 reqs skipped
+         | .partialRead => d ++ loopFwd f id fuel s2 (reqs ++ [req1]) skipped
+         | .skipRequest => d ++ loopFwd f id fuel s2 reqs (skipped ++ [req1])) ∧
+    sweepDelta s s id = (match getConn s id with
+      | some c => (linkOffsets s c.link).drop (linkOffsets s c.link).length
+      | none => []) :=
+  ⟨rfl, rfl, rfl, fun _ _ => rfl, fun _ => rfl, fun _ _ => rfl, fun _ => rfl, rfl, rfl, rfl, rfl, rfl⟩
+
+/-- the assumptions of `delivery_is_prefix` on a run (`QuietRun`): in every state of the run
+    connection `a` is live and belongs to client `cid`, and the cursor of its request for `f` points
+    into a retained segment ("within the configured log retention"); no op of the run is a CONNECT of
+    client `cid` (a takeover), and no batch of packets of connection `a` contains an UNSUBSCRIBE
+    naming `f` -/
+theorem quietRun_spec (a : Nat) (cid f : String) (s : RState) (op : Op) (ch : List Choice) (rest : List (Op × List Choice)) :
+    (QuietRun a cid f s [] ↔ Stays a cid f s) ∧
+    (QuietRun a cid f s ((op, ch) :: rest) ↔ Stays a cid f s ∧ QuietOp a cid f s op ∧
+      ∀ s' out, step { s with oracle := ch } op = .ok (s', out) → QuietRun a cid f s' rest) ∧
+    (Stays a cid f s ↔ (∃ c, getConn s a = some c ∧ c.clientId = cid) ∧
+      ∀ r, Own s a r → r.filter = f → ∀ fd, s.datalog.native[r.filterIdx]? = some fd → (logC fd.log).head ≤ r.cursor.1) ∧
+    (∀ spec, QuietOp a cid f s (.connect spec) ↔ spec.clientId ≠ cid) ∧
+    (∀ id, QuietOp a cid f s (.event id .deviceData) ↔
+      (id = a → ∀ c, getConn s a = some c → ∀ p ∈ (getLink s c.link).ibuf, f ∉ pktUnsubs p)) ∧
+    QuietOp a cid f s .consume ∧ (∀ l p, QuietOp a cid f s (.push l p)) ∧ (∀ l, QuietOp a cid f s (.drain l)) ∧
+    (∀ id, QuietOp a cid f s (.event id .disconnect)) ∧ (∀ id, QuietOp a cid f s (.event id .ready)) :=
+  ⟨Iff.rfl, Iff.rfl, Iff.rfl, fun _ => Iff.rfl, fun _ => Iff.rfl, trivial, fun _ _ => trivial, fun _ => trivial,
+   fun _ => trivial, fun _ => trivial⟩
+
+/-- C01.2 `delivery_is_prefix`, over WHOLE RUNS (no `ReqRun` premise any more). Take any run — any
+    list of ops with their oracles: publishes and other traffic of any client, consume calls, link
+    drains, connects and disconnects of OTHER clients — from a reachable state in which connection `a`
+    owns the request `r` of its non-shared subscription `f`, during which the connection stays and keeps
+    the subscription, within the log retention (`QuietRun`), ending below the no-overflow bound. Then
+    the log offsets forwarded to `a`'s link buffer through `f` during the run (`runFwd`) are EXACTLY the
+    consecutive offsets from the request's cursor at the start — in order, no gap, no repeat, across
+    all sweeps of all consume calls — and the connection's request for `f` at the end stands right
+    behind them. With `log_content` (one log entry per accepted matching publish) and
+    `forward_carries_entry`: exactly the matching messages, once each, in acceptance order.
+    Ingredients: request conservation (C03: THE request of `(a, f)` is in exactly one of tracker /
+    waiter list / notifications), `cursor_sound` (its cursor is issued at every step), ownership is
+    kept by every step except UNSUBSCRIBE / removal, and `consume` threads the request from sweep to
+    sweep (`delivery_is_prefix_partial` for each consume call). -/
+theorem delivery_is_prefix {cfg : Config} (h1 : 1 ≤ cfg.maxSegmentSize) (h2 : 1 ≤ cfg.maxSegmentCount)
+    (hpos : 0 < cfg.maxOutgoingPacketCount) {a : Nat} {cid f : String} (ops : List (Op × List Choice))
+    {s s2 : RState} {r : DataRequest} (hr : Reachable cfg s) (hrun : run s ops = .ok s2) (hno : NoOverflow s2)
+    (hquiet : QuietRun a cid f s ops) (hown : Own s a r) (hf : r.filter = f) (hplain : r.group = none) :
+    ∃ r2, Own s2 a r2 ∧ r2.filter = f ∧ r2.group = none ∧ r2.filterIdx = r.filterIdx ∧
+      runFwd a f s ops = List.range' r.cursor.2 (runFwd a f s ops).length ∧
+      r2.cursor.2 = r.cursor.2 + (runFwd a f s ops).length :=
+  run_thread h1 h2 hpos ops hr hrun hno hquiet hown hf hplain
+
+/-- C01.2 `no_gap_no_duplicate_over_runs`: the same, spelled out — the `k`-th offset forwarded through
+    the subscription during the run is the start offset plus `k`; in particular the offsets are
+    strictly increasing (none twice) and contiguous (none skipped) -/
+theorem no_gap_no_duplicate_over_runs {cfg : Config} (h1 : 1 ≤ cfg.maxSegmentSize) (h2 : 1 ≤ cfg.maxSegmentCount)
+    (hpos : 0 < cfg.maxOutgoingPacketCount) {a : Nat} {cid f : String} (ops : List (Op × List Choice))
+    {s s2 : RState} {r : DataRequest} (hr : Reachable cfg s) (hrun : run s ops = .ok s2) (hno : NoOverflow s2)
+    (hquiet : QuietRun a cid f s ops) (hown : Own s a r) (hf : r.filter = f) (hplain : r.group = none) :
+    (∀ k (hk : k < (runFwd a f s ops).length), (runFwd a f s ops)[k] = r.cursor.2 + k) ∧
+    (runFwd a f s ops).Pairwise (· < ·) := by
+  obtain ⟨_, _, _, _, _, e, _⟩ := delivery_is_prefix h1 h2 hpos ops hr hrun hno hquiet hown hf hplain
+  constructor
+  · intro k hk
+    have : (List.range' r.cursor.2 (runFwd a f s ops).length)[k]'(by simpa using hk) = r.cursor.2 + k := by
+      simp [List.getElem_range']
+    rw [← this]
+    congr 1
+  · rw [e]; exact List.pairwise_lt_range'
+
+/-- C01 `exact_delivery_at_idle` (the property as a whole, for one subscription): if moreover at the
+    end of the run the broker has gone idle for the connection (its tracker holds no request), then
+    what was forwarded through the subscription during the run is EXACTLY the stretch of the filter's
+    log from the request's start cursor to the END of the log as it is then — every entry appended to
+    the log since, once each, in order, none missing. When the run starts right after the SUBSCRIBE,
+    the start cursor is the log's tail at that moment (`subscription_starts_at_tail`): exactly the
+    matching messages accepted after the subscription took effect. -/
+theorem exact_delivery_at_idle {cfg : Config} (h1 : 1 ≤ cfg.maxSegmentSize) (h2 : 1 ≤ cfg.maxSegmentCount)
+    (hpos : 0 < cfg.maxOutgoingPacketCount) {a : Nat} {cid f : String} (ops : List (Op × List Choice))
+    {s s2 : RState} {r : DataRequest} (hr : Reachable cfg s) (hrun : run s ops = .ok s2) (hno : NoOverflow s2)
+    (hquiet : QuietRun a cid f s ops) (hown : Own s a r) (hf : r.filter = f) (hplain : r.group = none)
+    (hidle : ∀ c2, getConn s2 a = some c2 → c2.tracker.requests = []) :
+    ∃ fd hist, s2.datalog.native[r.filterIdx]? = some fd ∧ Rep (logC fd.log) hist ∧
+      r.cursor.2 ≤ hist.length ∧ runFwd a f s ops = List.range' r.cursor.2 (hist.length - r.cursor.2) := by
+  obtain ⟨r2, o2, f2, g2, i2, e, ec⟩ := delivery_is_prefix h1 h2 hpos ops hr hrun hno hquiet hown hf hplain
+  have hr2 : Reachable cfg s2 := by
+    obtain ⟨ops0, h0⟩ := hr
+    exact ⟨ops0 ++ ops, by rw [run_append ops0 ops _ _ h0]; exact hrun⟩
+  have hq := QI.reachable h1 h2 hpos hr2 hno
+  have hi := reachable_inv h1 h2 hr2
+  have h3 := Inv3.reachable hr2
+  obtain ⟨_, hW, _⟩ := (RC.iff s2).mp h3.rc
+  rcases o2 with ⟨c2, hc2, hm⟩ | ⟨i, fd, hfd, hm⟩ | hn
+  · rw [hidle c2 hc2] at hm; cases hm
+  · have hidx : r2.filterIdx = i := hW i fd hfd (a, r2) hm
+    obtain ⟨hist, hrep⟩ := hi.logs fd.log (List.mem_map.mpr ⟨fd, List.mem_of_getElem? hfd, rfl⟩)
+    have hend := hq.pe i fd hfd (a, r2) hm g2
+    have hlen : r2.cursor.2 = hist.length := by rw [hend.2, hrep.nextAbs_eq]
+    refine ⟨fd, hist, by rw [← i2, hidx]; exact hfd, hrep, by omega, ?_⟩
+    have : hist.length - r.cursor.2 = (runFwd a f s ops).length := by omega
+    rw [this]; exact e
+  · have : s2.notifications = [] := h3.inv2.binv.2
+    unfold Notified at hn; rw [this] at hn; cases hn
+
+/-- C01 "after that subscription took effect", the request: the data request `prepare_filter` tracks
+    for a NEW subscription `f` of connection `id` (how the SUBSCRIBE loop calls it: with the index and
+    cursor `next_native_offset` returned for the filter's path) is owned by the connection afterwards,
+    and its cursor is the tail of the filter's log at that moment: retained, at offset
+    `hist.length`. This is the request — and the start cursor — `delivery_is_prefix` and
+    `exact_delivery_at_idle` speak about for a run that starts here. -/
+theorem subscribe_request_starts_at_tail (s s' : RState) (hi : DLInv s) (id : Nat) (f : SubFilter) (subId : Option Nat)
+    (hnew : ∀ c, getConn s id = some c → f.path ∉ c.subscriptions)
+    (h : prepareFilter (nextNativeOffset s (sfFilter f.path)).1 id (nextNativeOffset s (sfFilter f.path)).2.2
+      (nextNativeOffset s (sfFilter f.path)).2.1 f (sfGroup f.path) subId = .ok s') :
+    ∃ r fd hist, Own s' id r ∧ r.filter = f.path ∧ r.group = (extractGroup f.path).map (·.1) ∧
+      s'.datalog.native[r.filterIdx]? = some fd ∧ fd.filter = sfFilter f.path ∧ Rep (logC fd.log) hist ∧
+      Issued (logC fd.log) r.cursor ∧ (logC fd.log).head ≤ r.cursor.1 ∧ r.cursor.2 = hist.length := by
+  obtain ⟨o, n, _, _, _⟩ := prepareFilter_own h
+  obtain ⟨fd, hist, hfd, hff, hrep, hiss, hhead, hlen⟩ := subscription_starts_at_tail s (sfFilter f.path) hi
+  have hsub : f.path ∉ subsOf (nextNativeOffset s (sfFilter f.path)).1 id := by
+    rw [(nextNativeOffset_oeq s (sfFilter f.path)).subs]
+    unfold subsOf
+    cases hc : getConn s id with
+    | none => simp
+    | some c => exact hnew c hc
+  refine ⟨pfReq (nextNativeOffset s (sfFilter f.path)).2.1 f (nextNativeOffset s (sfFilter f.path)).2.2 (sfGroup f.path),
+    fd, hist, (o id _).mpr (.inr ⟨rfl, rfl, hsub⟩), rfl, rfl, by rw [n]; exact hfd, hff, hrep, hiss, hhead, hlen⟩
+
 /-- the no-overflow bound follows from small next offsets (what one checks on a concrete state) -/
 theorem noOverflow_of_nextAbs {s : RState}
     (h : ∀ fd ∈ s.datalog.native, (logC fd.log).nextAbs + (MAX_INFLIGHT + s.config.maxOutgoingPacketCount) < U64) :
@@ -512,6 +785,24 @@ example : ∃ s, Reachable ⟨10, 1024, 2, 10, .roundRobin⟩ s ∧ NoOverflow s
   ⟨_, Reachable.ofX [(.connect ⟨0, "a", true, false, 0, none⟩, []), (.push 0 (.subscribe 1 none [⟨"t", 0⟩]), []),
          (.event 0 .deviceData, [])] rfl,
     noOverflow_of_nextAbs (by decide), _, ⟨"t", 0, 0, (0, 0), true, none⟩, rfl, by decide⟩
+
+/-- non-vacuity of `quiescent_complete` / `parked_at_end` (kernel-evaluated): after CONNECT, SUBSCRIBE `t`,
+    DeviceData and one `consume` (the sweep finds the log empty, reports `FilterCaughtup`, the
+    request is parked, the connection pauses `Caughtup`) the state is reachable, below the bound, the
+    connection is subscribed to `t`, its tracker is empty and the request is parked on log 0 at the
+    log's end `(0, 0)` -/
+example : ∃ s, Reachable ⟨10, 1024, 2, 10, .roundRobin⟩ s ∧ NoOverflow s ∧
+    ∃ c, getConn s 0 = some c ∧ c.tracker.requests = [] ∧ c.tracker.status = .paused .caughtup ∧ "t" ∈ c.subscriptions ∧
+      (s.datalog.native.map (fun fd => fd.waiters.map (fun w => (w.1, w.2.filter, w.2.cursor)))) = [[(0, "t", (0, 0))]] :=
+  ⟨_, Reachable.ofX [(.connect ⟨0, "a", true, false, 0, none⟩, []), (.push 0 (.subscribe 1 none [⟨"t", 0⟩]), []),
+         (.event 0 .deviceData, []), (.consume, [.retained []])] rfl,
+    noOverflow_of_nextAbs (by decide), _, rfl, by decide, by decide, by decide, by decide⟩
+
+/-- non-vacuity of `delivery_is_prefix`: its assumptions on a run (`QuietRun`) reduce, for the empty run,
+    to `Stays` in the start state; longer runs add the per-op conditions (`quietRun_spec`). Runs that
+    forward log entries cannot be kernel-evaluated (accepting a publish needs `String.fromUTF8?`); the
+    theorem quantifies over all runs. -/
+example (a : Nat) (cid f : String) (s : RState) (h : Stays a cid f s) : QuietRun a cid f s [] := h
 
 /-- non-vacuity on a concrete state (kernel-evaluated): client `a` holds a non-shared request for
     filter `t` at cursor `(0, 0)`; the filter's log has one entry. The sweep forwards exactly that
@@ -541,5 +832,46 @@ example :
             c.tracker.requests.map (fun r => (r.filter, r.filterIdx, r.cursor, r.group)) = [("t", 0, (0, 0), none)])
         | none => false)
      | .error _ => false) = true := by rw [run_eq_runX]; decide
+
+/-! ### non-vacuity of `delivery_is_prefix` on a run with a `consume` (kernel-evaluated) -/
+
+def exCfg : Config := ⟨10, 1024, 2, 10, .roundRobin⟩
+def exOps0 : List (Op × List Choice) :=
+  [(.connect ⟨0, "a", true, false, 0, none⟩, []), (.push 0 (.subscribe 1 none [⟨"t", 0⟩]), []), (.event 0 .deviceData, [])]
+/-- the state after CONNECT, SUBSCRIBE `t`, DeviceData -/
+def exS : RState := match runX (init exCfg) exOps0 with | .ok s => s | .error _ => init exCfg
+/-- and after one `consume` -/
+def exS2 : RState := match stepX { exS with oracle := [.retained []] } .consume with | .ok (s, _) => s | .error _ => init exCfg
+
+theorem exS_run : runX (init exCfg) exOps0 = .ok exS := by rfl
+theorem exS2_step : ∃ out, stepX { exS with oracle := [.retained []] } .consume = .ok (exS2, out) := ⟨_, by rfl⟩
+
+/-- `Stays` for a state all of whose logs still have their first segment -/
+theorem stays_of_heads {a : Nat} {cid f : String} {t : RState} (hl : (getConn t a).map (·.clientId) = some cid)
+    (hh : t.datalog.native.all (fun fd => fd.log.head == 0) = true) : Stays a cid f t := by
+  refine ⟨?_, fun r _ _ fd hfd => ?_⟩
+  · cases hc : getConn t a with
+    | none => rw [hc] at hl; cases hl
+    | some c => rw [hc] at hl; exact ⟨c, rfl, by simpa using hl⟩
+  · have := List.all_eq_true.mp hh fd (List.mem_of_getElem? hfd)
+    have e : (logC fd.log).head = 0 := by
+      have : fd.log.head = 0 := by simpa using this
+      exact this
+    rw [e]; exact Nat.zero_le _
+
+/-- the assumptions of `delivery_is_prefix` hold for the run `[consume]` from the reachable state `exS`,
+    in which connection 0 (client `a`) owns the request of its subscription `t`; the run ends below
+    the no-overflow bound -/
+example : Reachable exCfg exS ∧ QuietRun 0 "a" "t" exS [(.consume, [.retained []])] ∧
+    (∃ r, Own exS 0 r ∧ r.filter = "t" ∧ r.group = none) ∧
+    ∃ s2, run exS [(.consume, [.retained []])] = .ok s2 ∧ NoOverflow s2 := by
+  obtain ⟨out, hstep⟩ := exS2_step
+  refine ⟨Reachable.ofX exOps0 exS_run, ⟨stays_of_heads (by decide) (by decide), trivial, fun s' o h => ?_⟩,
+    ⟨⟨"t", 0, 0, (0, 0), true, none⟩, .inl ⟨_, rfl, by decide⟩, rfl, rfl⟩, exS2, ?_, noOverflow_of_nextAbs (by decide)⟩
+  · rw [step_eqX, hstep] at h
+    simp only [Except.ok.injEq, Prod.mk.injEq] at h
+    obtain ⟨rfl, _⟩ := h
+    exact stays_of_heads (by decide) (by decide)
+  · simp only [run, step_eqX, hstep]
 
 end C01
